@@ -79,12 +79,16 @@ def _config(draw, cap=160):
     direction = draw(st.sampled_from([1.0, -1.0]))
     nsteps = draw(st.integers(3, 6 if slow else 12))
     against = draw(st.sampled_from([False, False, True]))
+    terminal = draw(st.sampled_from([False, False, True]))
     return dict(part="faults", method=method, dtype="float64", prob=prob, y0=draw(PR.state(prob["shape"])), t0=t0, tf=t0 + direction * L,
                 dt=L / nsteps, rtol=1e-6, atol=1e-6, dense=draw(st.booleans()) or (against and draw(st.booleans())), callbacks=draw(st.booleans()),
-                events=draw(st.sampled_from([[], [], [0.37], [0.37, 0.62]] if not against else [[], [0.37], [0.37, 0.62], [0.62]])), user_jac=draw(st.booleans()),
+                events=draw(st.sampled_from(([[], [], [0.37], [0.37, 0.62]] if not against else [[], [0.37], [0.37, 0.62], [0.62]]) if not terminal else [[0.37], [0.37, 0.62], [0.62], [0.37, 0.81]])), user_jac=draw(st.booleans()),
                 fault=draw(st.sampled_from(["rotate", "rotate", "rotate", "custom", "runtime", "zerodiv", "keyboard", "nested"])), cap=cap,
                 # a second fault, `second` user-callable calls into the resumed integrate() (at every third crash point)
-                second=draw(st.sampled_from([0, 0, 1, 2, 5, 17])), against_span=against, noop_first=draw(st.sampled_from([False, False, True])))
+                second=draw(st.sampled_from([0, 0, 1, 2, 5, 17])), against_span=against, noop_first=draw(st.sampled_from([False, False, True])),
+                # the last event is terminal: the run ends with the re-integration up to it (a nested integrate call), whose
+                # user calls are crash points like any other
+                terminal=terminal)
 
 
 def parts(tier):
@@ -135,6 +139,8 @@ class Harness(object):
                 tick("event")
                 return t - _tc
             self.events.append(g)
+        if case.get("terminal") and self.events:
+            self.events[-1].is_terminal = True
         self.cbs = []
         if case["callbacks"]:
             def cb(system):
@@ -216,8 +222,12 @@ def check(case):
     if len(t_ref) > 400 or E > 6000:
         return [], dict(nontrivial=False, labels=labels + ["skipped:too_long"])
     ks, exhaustive = _points(E, n_construct + 1, tier_cap)
+    stopped_ref = "terminated upon" in ref.a.integration_status
+    t_end = float(t_ref[-1]) if stopped_ref else case["tf"]      # a terminal event ends the run (and every resumed run) there
+    if case.get("terminal") and case["events"]:
+        labels.append("terminal_event:" + ("stopped" if stopped_ref else "not_reached"))
     # accurate solution at tf (8th-order pair at 1e-11): the resumed run must be as accurate as the fault-free one
-    fine = de.OdeSystem(lambda t, y, **kw: ref.f(t, y), y0=ref.y0.copy(), t=(case["t0"], case["tf"]), dt=0.05, rtol=1e-11, atol=1e-11)
+    fine = de.OdeSystem(lambda t, y, **kw: ref.f(t, y), y0=ref.y0.copy(), t=(case["t0"], t_end), dt=0.05, rtol=1e-11, atol=1e-11)
     fine.method = M.get("RK8713MSolver")
     fine.integrate()
     y_fine = np.asarray(fine.y)[-1]
@@ -273,6 +283,11 @@ def check(case):
         if not np.array_equal(t, t_ref[:n]) or not np.array_equal(y, y_ref[:n]):
             viols.append(V("prefix_content", "{}: {}: the kept samples differ from the first {} samples of the fault-free run".format(method, where, n), sig + kind, kind=kind, **attrs))
             break
+        sgn_ = 1.0 if case["tf"] > case["t0"] else -1.0
+        ahead = [float(e.t) for e in a.events if sgn_ * (float(e.t) - float(t[-1])) > 1e-12 * max(1.0, abs(float(t[-1])))]
+        if ahead:
+            viols.append(V("events_beyond_prefix", "{}: {}: the trajectory ends at {!r} but events are recorded at {}".format(method, where, float(t[-1]), ahead), sig + kind, kind=kind, **attrs))
+            break
         if case["dense"]:
             dv = traj.dense_consistency(a, h.f, fam, dict(attrs, kind=kind), what="after " + where, sig_what="after fault in " + kind)
             if dv:
@@ -318,7 +333,7 @@ def check(case):
             viols.append(V("resume_raised", "{}: integrate() after {} raised {!r} caused by {!r}".format(method, where, err2, cause2), sig + kind + exc_sig(err2) if err2 is not None else sig, kind=kind, **attrs))
             break
         sgn = 1.0 if case["tf"] > case["t0"] else -1.0
-        viols += traj.trajectory_invariants(a, case["t0"], h.y0, [(0, len(a) - 1, case["tf"], sgn)], np.float64, dict(attrs, kind=kind), check_status=False)
+        viols += traj.trajectory_invariants(a, case["t0"], h.y0, [(0, len(a) - 1, t_end, sgn)], np.float64, dict(attrs, kind=kind), check_status=False)
         if not viols and len(a) > n_before_resume and (not a.success or "failed" in a.integration_status or "not been run" in a.integration_status):
             # the resumed call advanced the system and returned normally: the status is that of this call, not of the one that
             # failed (a call that finds the system at its target already is a no-op and leaves the status alone)
